@@ -820,12 +820,13 @@ def rule_j(ctx: Context, R: Reporter):
                     return True
                 if isinstance(x, ast.IfExp):
                     return visit(x.test, acc) or visit(x.body, acc + split_cond(x.test, True)) or visit(x.orelse, acc + split_cond(x.test, False))
-                if isinstance(x, ast.BoolOp) and isinstance(x.op, ast.And):
+                if isinstance(x, ast.BoolOp):
+                    # short-circuit: a later operand of `and` runs when the earlier ones are true, of `or` when they are false
                     pre = list(acc)
                     for v in x.values:
                         if visit(v, pre):
                             return True
-                        pre = pre + split_cond(v, True)
+                        pre = pre + split_cond(v, isinstance(x.op, ast.And))
                     return False
                 return any(visit(ch, acc) for ch in ast.iter_child_nodes(x))
             visit(root, [])
